@@ -70,6 +70,11 @@ def make_droplet(rng, cls, grid, on_cell_centre=False):
         return D.DiffuseDroplet(pos, R, w)
     modes = rng.choice([1, 2, 3, 4])
     amps = [rng.choice([0.0, rng.uniform(-0.25, 0.25)]) for _ in range(modes)]
+    if modes >= 3 and rng.random() < 0.35:
+        # sparse vectors: the lowest modes vanish, a higher one is clearly present
+        k = rng.choice([2, 3]) if modes > 3 else 2
+        amps[:k] = [0.0] * k
+        amps[-1] = rng.choice([-1, 1]) * rng.uniform(0.15, 0.25)
     if cls == "PerturbedDroplet3DAxisSym":
         pos = np.array(pos, float)
         pos[:2] = 0.0  # axisymmetric droplets live on the z-axis
